@@ -39,7 +39,8 @@ MANIFEST = dict(
          "validated by correspondence only; gfortran/gcc/g++ code generation and Fortran argument association. _partial: "
          "std::vector, context/cdesc descriptors, allocatable/pointer results (allocatable strings are C10's "
          "allocatable_*_partial), capsules, char**, struct casts, CFI_allocate are translated as opaque ops and only "
-         "exercised by the tie and (strings) the oracle; configuration independence is proved for the modelled kinds only.",
+         "exercised by the tie and (strings) the oracle; configuration independence is proved for the modelled kinds only "
+         "(std::vector, T** out, native pointer/allocatable results and char** are modelled but have no CFI entry).",
     technique="Lean 4 proof (interpreter over regenerated op tables, induction over parameter and clone lists, decide +kernel "
               "table theorems) + differential correspondence + compile-and-run oracle",
 )
@@ -64,10 +65,15 @@ THEOREMS = {
     ]]
 }
 
-PARTIAL = ["std::vector arguments and results (c_vector_*, f_vector_*)", "context / cdesc descriptors (c_native_**_out_buf, *_cdesc)",
-           "allocatable and pointer results (f_*_result_buf_allocatable / _pointer; string case: C10 allocatable_*_partial)",
-           "capsule arguments (owner(caller) pointer results)", "char ** (c_char_**_in_buf)", "struct conversion casts",
-           "CFI_allocate results (c_*_result_cfi_allocatable)", "shadow (class instance) arguments beyond the this-argument position",
+PARTIAL = ["std::vector<std::string> (c_vector_*_buf_string: loop templates are opaque ops)",
+           "cdesc arguments (+cdesc: f/c_native_*_cdesc, c_void_*_cdesc) and f_native_**_out_raw",
+           "allocatable character / std::string results through the context struct (c_*_result_buf_allocatable, "
+           "ShroudStrToArray, copy_string: C10 allocatable_*_partial) and CFI_allocate results (c_*_result_cfi_allocatable)",
+           "capsule arguments (owner(caller) pointer results: f_native_*_result_buf_pointer_caller)",
+           "struct conversion casts (c_struct*), shadow (class instance) arguments beyond the this-argument position",
+           "non-bufferify std::string entries (c_string_*_in/out/inout: strcpy forms, plain C API: C02)",
+           "std::vector, T** out, context results and char** have no _cfi entry (theorem context_kinds_have_no_cfi_entry): "
+           "no configuration-independence statement for them; the oracle runs them with F_CFI=false only",
            "debug on/off (C16) is exercised by the oracle only"]
 
 # internal failures of Shroud on legal combinations, minimised and handed to C05 (corpus/c05.txt + known findings)
